@@ -148,16 +148,49 @@ def pollOracle (net : Nat) (before : PState) (afterNext : Nat) (afterTable : Tab
       else if table != afterTable then some "POLL-ADVANCE PowerTable is not the table after the stored certificates"
       else none
 
+/-- the same judgement when certificates also arrived through another channel after `CatchUp`: `base` is the
+poller after catch-up, `pre` its store once the arrivals are in. The poller may lag behind the store (it only
+advances by what the response carried) but whatever instance it stands at, its table must be the store's table
+for that instance, and everything stored beyond `pre` must validate in sequence. -/
+def pollOracleArr (net : Nat) (base : PState) (pre : Store) (afterNext : Nat) (afterTable : Table)
+    (afterCerts : List Cert) (internal : Bool) : Option String :=
+  let n := pre.certs.length
+  if afterCerts.take n != pre.certs then some "POLL-STORE-REWRITTEN earlier certificates changed"
+  else
+    -- walk every stored certificate from the poller's catch-up point
+    let from0 := afterCerts.drop (base.next - base.store.first)
+    let walk := from0.foldl (fun (s : Option (List (Nat × Table))) c =>
+      match s with
+      | none => none
+      | some acc =>
+        match acc.getLast? with
+        | none => none
+        | some (next, table) =>
+          match applyDiff table c.delta with
+          | .ok nt => if certValidB net table next none c nt then some (acc ++ [(u64 (next + 1), nt)]) else none
+          | .error _ => none) (some [(base.next, base.table)])
+    match walk with
+    | none => some "POLL-STORED-INVALID a stored certificate does not validate in sequence from the poller's table"
+    | some pts =>
+      if internal then none
+      else match pts.find? (·.1 == afterNext) with
+        | none => some s!"POLL-ADVANCE NextInstance {afterNext} is not between the catch-up point {base.next} and the end of the stored certificates"
+        | some (_, t) => if t != afterTable then some s!"POLL-ADVANCE PowerTable is not the table of instance {afterNext} after the stored certificates" else none
+
 def checkPoll (st : St) (pid : Nat) (respond : Nat → Nat → Resp) (status : String) (received new : Nat)
-    (internal : Bool) (next : Nat) (table : Table) (certs : List Cert) : St × Verdict :=
+    (internal : Bool) (next : Nat) (table : Table) (certs : List Cert) (arrivals : List Cert := []) : St × Verdict :=
   match st.pollers.get? pid with
   | none => (st, .bad "unknown poller")
   | some ps =>
-    let (ms, mr) := poll st.net respond 2000 0 ps {}
+    let (ms, mr) := if arrivals.isEmpty then poll st.net respond 2000 0 ps {}
+      else pollWithArrivals st.net respond 2000 arrivals ps {}
+    let base := (catchUp ps).getD ps
+    let pre := arrivals.foldl (fun s c => match s.put c with | .ok s' => s' | .error _ => s) base.store
     -- continue from the implementation's state
     let implState : PState := ⟨next, table, { ps.store with certs := certs }⟩
     let st' := { st with pollers := st.pollers.insert pid implState }
-    match pollOracle st.net ps next table certs internal with
+    match (if arrivals.isEmpty then pollOracle st.net ps next table certs internal
+           else pollOracleArr st.net base pre next table certs internal) with
     | some msg => (st', .oracle msg)
     | none =>
       if mr.internal != internal then (st', .diff s!"internal error: impl {internal} model {mr.internal}")
@@ -258,6 +291,12 @@ def step (st : St) (line : String) : St × Verdict :=
       let script ← if script = "-" then some [] else (script.splitOn "~").mapM (resp? st)
       some (checkPoll st (← pid.toNat?) (scriptResponder script) status (← received.toNat?) (← new.toNat?)
         (← parseBool? internal) (← next.toNat?) (← table? table) (← st.certList cs))
+    r.getD (st, .bad "poll line")
+  | ["poll", pid, "scriptmid", script, mid, "=>", status, received, new, internal, next, table, cs] =>
+    let r : Option (St × Verdict) := do
+      let script ← if script = "-" then some [] else (script.splitOn "~").mapM (resp? st)
+      some (checkPoll st (← pid.toNat?) (scriptResponder script) status (← received.toNat?) (← new.toNat?)
+        (← parseBool? internal) (← next.toNat?) (← table? table) (← st.certList cs) (← st.certList mid))
     r.getD (st, .bad "poll line")
   | ["poll", pid, "server", sid, "=>", status, received, new, internal, next, table, cs] =>
     let r : Option (St × Verdict) := do
